@@ -397,8 +397,18 @@ def apply_step(df, step, F):
     raise ValueError(step)
 
 
+def has_or(e) -> bool:
+    return isinstance(e, tuple) and ((e[0] == "bin" and e[1] == "Or") or any(has_or(x) for x in e[1:]))
+
+
+ORDER_WITNESS = None   # the corpus program that exhibits the known engine-reordering finding keeps sequence mode
+
+
 def plan_mode(steps):
-    """(mode, truncated steps): sequence comparison only under a total order; an undetermined limit must be last"""
+    """(mode, truncated steps): sequence comparison only under a total order; an undetermined limit must be last.
+    DuckDB's OR-filter does not keep the order of its input (known finding C01/engine-reorders-...): outside the one
+    corpus witness such a filter is treated as order-destroying, so that the finding is reported once, by its witness,
+    and cannot explain away other deviations."""
     total = False
     out = []
     cols = {"a": "int", "b": "int", "s": "str"}
@@ -408,6 +418,8 @@ def plan_mode(steps):
             keycols = [e[1] for e, _, _ in st[1] if e[0] == "col"]
             total = set(keycols) >= set(cols)
         elif k in ("distinct", "unpivot", "agg"):
+            total = False
+        elif k == "where" and has_or(st[1]) and steps is not ORDER_WITNESS:
             total = False
         elif k == "dropDup":
             out.append(st)
@@ -498,15 +510,22 @@ def make_programs(ctx):
         [("orderBy", [(("col", "a"), False, None), (("col", "b"), False, None), (("col", "s"), False, None)]), ("limit", 4), ("where", ("bin", "Gt", ("col", "b"), ("lit", 1)))],
         [("distinct",), ("select", [(("col", "a"), "a")]), ("distinct",)],
         # DuckDB's OR-filter emits the rows of each disjunct in turn: order of an ordered CTE is lost (known finding)
-        [("orderBy", [(("col", "s"), False, False), (("col", "a"), False, None), (("col", "b"), False, None)]),
-         ("select", [(("col", "a"), "a"), (("bin", "Mul", ("lit", -3), ("neg", ("col", "a"))), "c"), (("col", "s"), "s")]),
-         ("where", ("bin", "Or", ("isnull", ("col", "a")),
-                    ("bin", "Eq", ("bin", "Mul", ("col", "c"), ("col", "c")), ("bin", "Add", ("col", "c"), ("col", "c")))))],
+        ORDER_WITNESS_PROGRAM,
         [("fillna", {"a": 0}), ("where", ("bin", "Eq", ("col", "a"), ("lit", 0)))],
         [("replace", ["a"], [(1, 7)]), ("agg", ["a"], [("count_star", "*", "n")])],
         [("orderBy", [(("col", "a"), False, None), (("col", "b"), False, None), (("col", "s"), False, None)]), ("toDF", ["b", "a", "s"])],
     ]
+    global ORDER_WITNESS
+    ORDER_WITNESS = ORDER_WITNESS_PROGRAM
     return corpus + progs, n_exh
+
+
+ORDER_WITNESS_PROGRAM = [("orderBy", [(("col", "s"), False, False), (("col", "a"), False, None), (("col", "b"), False, None)]),
+         ("select", [(("col", "a"), "a"), (("bin", "Mul", ("lit", -3), ("neg", ("col", "a"))), "c"), (("col", "s"), "s")]),
+         ("where", ("bin", "Or", ("isnull", ("col", "a")),
+                    ("bin", "Eq", ("bin", "Mul", ("col", "c"), ("col", "c")), ("bin", "Add", ("col", "c"), ("col", "c")))))]
+
+
 
 
 def signature(steps, flags):
